@@ -71,6 +71,19 @@ pub fn vx_collect_code_set(v: &Vec<DiagnosticCode>) -> (r: HashSet<DiagnosticCod
     ensures key_model_ok() ==> r@ == v@.to_set(),
 { v.iter().cloned().collect() }
 
+/// helper of rule `vec-filter-cloned-collect-set` (the construct is NOT in the current tree; the rule is optional and
+/// exists so that a filter stage inserted into one of the two pipelines is judged against the contract instead of
+/// leaving the unit undecided). std: `Iterator::filter(f)` yields exactly the elements for which `f` returns true, in
+/// order; then as `vx_collect_code_set`. (`f` is treated as a pure predicate: its `call_ensures` relates argument and
+/// result — the same reading as the `Vec::retain` contract of unit c36_exit.)
+#[verifier::external_body]
+pub fn vx_filter_collect_code_set<F: FnMut(&&DiagnosticCode) -> bool>(v: &Vec<DiagnosticCode>, f: F) -> (r: HashSet<DiagnosticCode>)
+    requires forall|i: int| #![trigger v@[i]] 0 <= i < v@.len() ==> call_requires(f, (&&v@[i],)),
+    ensures
+        key_model_ok() ==> forall|c: DiagnosticCode| #[trigger] r@.contains(c) ==> v@.contains(c),
+        key_model_ok() ==> forall|i: int| 0 <= i < v@.len() && !r@.contains(#[trigger] v@[i]) ==> call_ensures(f, (&&v@[i],), false),
+{ v.iter().filter(f).cloned().collect() }
+
 /// helper of rule `globals-map-smolstr-collect`: `v.iter().map(|s| SmolStr::new(s.as_str())).collect::<HashSet<SmolStr>>()`
 /// — `map` yields `f(x)` for every element, `collect` the set of the yielded values.
 #[verifier::external_body]
@@ -216,15 +229,35 @@ pub open spec fn added<T>(old_s: Seq<T>, new_s: Seq<T>) -> Seq<T> {
     new_s.skip(old_s.len() as int)
 }
 
-/// C19 for a scoped (block / line) suppression comment with scope `range`: what the comment records
-pub open spec fn scoped_ok(d: &LuaDocTagDiagnostic, file: FileId, range: TextRange, o: &DiagnosticIndex, n: &DiagnosticIndex) -> bool {
-    let a = added(o.actions@, n.actions@);
-    &&& extends(o.actions@, n.actions@)
+/// "without a code list every code is suppressed": a `DisableAll` action is recorded iff the comment has NO code
+/// list at all (then exactly one). In particular a list whose names all fail to parse records nothing.
+pub open spec fn disable_all_only_without_list(d: &LuaDocTagDiagnostic, a: Seq<(FileId, DiagnosticAction)>) -> bool {
     &&& ((exists|i: int| 0 <= i < a.len() && (#[trigger] a[i]).1.kind is DisableAll) <==> sp_code_list(d) is None)
     &&& (sp_code_list(d) is None ==> a.len() == 1)
-    &&& (sp_code_list(d) is Some ==> a.len() == listed_codes(tag_tokens(d)).len()
-            && forall|i: int| 0 <= i < a.len() ==> (#[trigger] a[i]).1.kind == DiagnosticActionKind::Disable(listed_codes(tag_tokens(d))[i]))
-    &&& forall|i: int| 0 <= i < a.len() ==> (#[trigger] a[i]).0 == file && a[i].1.range == range
+}
+/// "a code list suppresses exactly its codes": with a list, the recorded actions are `Disable(c)` for the parsed names
+/// of the list, one per name, in order — nothing else
+pub open spec fn exactly_the_listed_codes(d: &LuaDocTagDiagnostic, a: Seq<(FileId, DiagnosticAction)>) -> bool {
+    sp_code_list(d) is Some ==> a.len() == listed_codes(tag_tokens(d)).len()
+        && forall|i: int| 0 <= i < a.len() ==> (#[trigger] a[i]).1.kind == DiagnosticActionKind::Disable(listed_codes(tag_tokens(d))[i])
+}
+/// every recorded action is filed under the comment's file and carries the scope range computed before
+pub open spec fn carry_the_scope(a: Seq<(FileId, DiagnosticAction)>, file: FileId, range: TextRange) -> bool {
+    forall|i: int| 0 <= i < a.len() ==> (#[trigger] a[i]).0 == file && a[i].1.range == range
+}
+/// the sentence of C19 itself, per code: `c` is suppressed by what the comment recorded iff the comment has no code list
+/// or its list names `c` ("other codes are unaffected")
+pub open spec fn suppresses_exactly(d: &LuaDocTagDiagnostic, a: Seq<(FileId, DiagnosticAction)>) -> bool {
+    forall|c: DiagnosticCode| (exists|i: int| 0 <= i < a.len() && kind_suppresses((#[trigger] a[i]).1.kind, c))
+        <==> (sp_code_list(d) is None || names_code(d, c))
+}
+/// file-level variants (`disable` at top level, `enable`): the entries are exactly (file, c) for the listed codes
+pub open spec fn entries_exactly(d: &LuaDocTagDiagnostic, e: Seq<(FileId, DiagnosticCode)>, file: FileId) -> bool {
+    e == file_entries(listed_codes(tag_tokens(d)), file)
+}
+pub open spec fn entries_name_exactly(d: &LuaDocTagDiagnostic, e: Seq<(FileId, DiagnosticCode)>, file: FileId) -> bool {
+    &&& forall|i: int| 0 <= i < e.len() ==> (#[trigger] e[i]).0 == file
+    &&& forall|c: DiagnosticCode| (exists|i: int| 0 <= i < e.len() && (#[trigger] e[i]).1 == c) <==> names_code(d, c)
 }
 
 //@@include c20_inputs/lemmas.rs
